@@ -264,6 +264,17 @@ def serde_corr(env: Env, out: Outcome, n: int, stability_sig: str | None = None)
                     out.violations.append(Violation("C12/queued_invocation_budget_changed",
                                                     f"queued invocations whose retry count / recovery budget changed across the round trip: {missing[:3]}",
                                                     {"state": ops[-3][:6000], "cfg": ops[-4][:2000]}))
+            if stability_sig is not None and direct.WAITER_HAS_RECORD:
+                # ... and so does every invocation SUSPENDED in wait_for_event: the attempt record its waiter keeps
+                def _went(nm: str, w: Any) -> tuple:
+                    return (nm, w.waiter_id, enc.ev(w.event), w.attempts, w.first_attempt_at, w.last_failed_at,
+                            None if w.last_exception is None else str(w.last_exception), tuple(sorted(w.recovery_counts.items())))
+                b4 = sorted(_went(nm, w) for nm, ws in st.workers.items() for w in ws.collected_waiters)
+                af = sorted(_went(nm, w) for nm, ws in cur.workers.items() for w in ws.collected_waiters)
+                if b4 != af:
+                    out.violations.append(Violation("C12/waiting_invocation_budget_changed",
+                                                    f"the attempt record kept in a waiter changed across the round trip: {[x for x in b4 if x not in af][:2]} -> {[x for x in af if x not in b4][:2]}",
+                                                    {"state": ops[-3][:6000], "cfg": ops[-4][:2000]}))
             if stability_sig is not None and rts[0] != rts[1]:
                 # the property's own clause, on the implementation alone: one round trip must be a fixed point
                 i = 0
